@@ -236,6 +236,8 @@ def cases(tier, seed):
         want_far = far < nfar and c % 11 == 5
         want_vert = made < nvert and c % 7 == 3 and not want_far
         case = _one_case(rnd, c, want_vert, want_far)
+        # some cases are matched as a collection of 2-3 tracks in ONE call (state shared between tracks must not leak)
+        case["group"] = rnd.choice([2, 3]) if (c % 5 == 1 and len(case["track"]) >= 4) else 1
         made += 1 if case["vertical_exact"] else 0
         far += 1 if want_far else 0
         yield case
@@ -283,24 +285,45 @@ def _snapshot(track):
 # ------------------------------------------------------------------ contract
 def check_case(case):
     from tracklib.algo.mapping import mapOnNetwork
-    fails = []
+    from tracklib.core.track import Track
+    from tracklib.core.track_collection import TrackCollection
     edges = case["edges"]
     radius = case["search_radius"]
-    net, track = _build(case)
-    before = _snapshot(track)
-    objs = [track[k] for k in range(len(track))]
-    what = "mapOnNetwork(track %r, %s network of %d edges, index resolution=%r margin=%r, search_radius=%r, gps_noise=%r)" % (
+    net, whole = _build(case)
+    group = case.get("group", 1)
+    if group > 1:
+        n = len(whole)
+        cuts = [round(j * n / group) for j in range(group + 1)]
+        tracks = [Track([whole[k] for k in range(cuts[j], cuts[j + 1])]) for j in range(group) if cuts[j + 1] > cuts[j]]
+    else:
+        tracks = [whole]
+    befores = [_snapshot(t) for t in tracks]
+    objss = [[t[k] for k in range(len(t))] for t in tracks]
+    what = "mapOnNetwork(%s %r, %s network of %d edges, index resolution=%r margin=%r, search_radius=%r, gps_noise=%r)" % (
+        "track" if group == 1 else "collection of %d tracks cut from" % len(tracks),
         [[p[0], p[1]] for p in case["track"]], case["kind"], len(edges), case["resolution"], case["margin"], radius, case["gps_noise"])
+    nobs = sum(len(b) for b in befores)
     try:
-        mapOnNetwork(track, net, gps_noise=case["gps_noise"], transition_cost=case["transition_cost"],
-                     search_radius=radius, debug=False)
+        mapOnNetwork(tracks[0] if group == 1 else TrackCollection(tracks), net, gps_noise=case["gps_noise"],
+                     transition_cost=case["transition_cost"], search_radius=radius, debug=False)
     except Exception as e:
         tag = ""
         vx = _vertical_xs(edges)
         if isinstance(e, ZeroDivisionError) and any(p[0] in vx for p in case["track"]):
             tag = " (an observation has exactly the abscissa of a vertical-segment of the network)"
         return dict(failures=["mapOnNetwork raised %s: %s%s -- %s" % (type(e).__name__, e, tag, what)],
-                    evaluations=len(before), nontrivial=len(before))
+                    evaluations=nobs, nontrivial=nobs)
+    fails, matched = [], 0
+    for j, track in enumerate(tracks):
+        f, m = _check_track(track, befores[j], objss[j], edges, radius, case,
+                            what if group == 1 else "track %d of the %s" % (j, what))
+        fails += f
+        matched += m
+    return dict(failures=fails[:5], evaluations=nobs, nontrivial=matched)
+
+
+def _check_track(track, before, objs, edges, radius, case, what):
+    fails = []
     # ---- the track keeps its observations
     after = _snapshot(track)
     if len(after) != len(before):
@@ -365,4 +388,4 @@ def check_case(case):
         if not any(abs(ds - a) <= 4 * tol and abs(dt - (L - a)) <= 4 * tol for a in cand):
             fails.append("observation %d: matched point (%r,%r) is at arc length %r of edge %d (length %r) but the distances to "
                          "source / target are %r / %r -- %s" % (k, px, py, cand[0], e, L, ds, dt, what))
-    return dict(failures=fails[:5], evaluations=len(before), nontrivial=matched)
+    return fails, matched
